@@ -184,12 +184,15 @@ def run_scripts(ctx, exe, scripts, tag, engines, cfg, counted_as):
 def script_from_trace(lines):
     """--replay: rebuild the script from a saved (rejected) execution."""
     ev = [json.loads(x) for x in lines if x.strip().startswith("{")]
-    kind, n, engine = "event", 3, "epoll"
+    kind, n, engine, base, pre = "event", 3, "epoll", 0, False
     top, cb, key = [], {}, None
     for e in ev:
         t = e["e"]
         if t == "Reset":
+            continue
+        if t == "info":
             kind, n, engine = e.get("kind", kind), e.get("n", n), e.get("engine", engine)
+            base, pre = int(e.get("base", "0")), e.get("pre", False)
         elif t == "fire":
             key = "%d:%d" % (e["i"], e["k"])
         elif t == "pass":
@@ -203,7 +206,7 @@ def script_from_trace(lines):
                     op[f] = e[f]
             (cb.setdefault(key, []) if e.get("cb", 0) else top).append(op)
     top.append({"o": "pass"})
-    return {"kind": kind, "n": max(n, 1), "top": top, "cb": cb}, engine
+    return {"kind": kind, "n": max(n, 1), "base": base, "pre": pre, "top": top, "cb": cb}, engine
 
 
 def fork(ctx, name):
@@ -238,7 +241,12 @@ def run(ctx):
     if not has_wait:
         ctx.notes.append("CommonLoop::getWaitTime() not accessible: poll-timeout bound not observed in this run")
     if ctx.replay_path:
-        sc, engine = script_from_trace(open(ctx.replay_path).read().splitlines())
+        lines = open(ctx.replay_path).read().splitlines()
+        if not any(x.startswith('{"e":"Reset"') for x in lines):      # a model-level counterexample: re-check the models
+            ctx.tlc_mc("Timers", "MC_Timers.tla", "MC_quick.cfg", coverage=False)
+            ctx.tlc_mc("Timers", "MC_Timers.tla", "MC_shared.cfg", coverage=False)
+            return
+        sc, engine = script_from_trace(lines)
         run_scripts(ctx, exe, [sc], "replay", engine, "Trace_Timers.cfg", "replay")
         return
     quick = ctx.quick()
@@ -285,12 +293,12 @@ def run(ctx):
         ok, tr = run_scripts(c, exe, rs, "random", both, "Trace_Timers.cfg", "trace")
         return [json.loads(x) for x in vlib.read_lines(tr, 1, 14)]
 
-    jobs = [("mc", j_mc), ("mc2", j_mc2), ("focus", j_focus), ("pool", j_pool), ("deep", j_deep), ("random", j_random)]
+    jobs = [("mc", j_mc), ("focus", j_focus), ("mc2", j_mc2), ("pool", j_pool), ("random", j_random), ("deep", j_deep)]
     only = os.environ.get("C02_JOBS")          # development knob: run a subset of the jobs (evidence is then partial)
     if only:
         jobs = [(n, f if n in only.split(",") else (lambda c: None)) for n, f in jobs]
     subs = [fork(ctx, n) for n, _ in jobs]
-    with cf.ThreadPoolExecutor(max_workers=max(2, min(6, vlib.NCPU // 2))) as ex:
+    with cf.ThreadPoolExecutor(max_workers=max(3, min(6, vlib.NCPU // 2))) as ex:
         futs = [ex.submit(f, c) for (n, f), c in zip(jobs, subs)]
         res = []
         err = None
@@ -306,7 +314,7 @@ def run(ctx):
     if err:
         ctx.notes.append("an infrastructure error in one job was not reported because violations were found: %s" % str(err)[:300])
     ctx.exhaustive = True
-    _, _, focus, pool, deep, first = res
+    _, focus, _, pool, first, deep = res
     if only:
         ctx.notes.append("partial run: C02_JOBS=" + only)
         return
